@@ -374,13 +374,18 @@ class HedTag:
         if not value:
             stripped_value = units
             unit_entry = self.default_unit
+            if unit_entry is None:
+                return None
             unit = unit_entry.name
         else:
             stripped_value, unit, unit_entry = HedTag._get_tag_units_portion(self.extension, tag_unit_classes)
 
         if stripped_value:
             if unit_entry.get_conversion_factor(unit) is not None:
-                return float(stripped_value) * unit_entry.get_conversion_factor(unit)
+                try:
+                    return float(stripped_value) * unit_entry.get_conversion_factor(unit)
+                except ValueError:
+                    return None  # The value is not a number.
 
     @property
     def unit_classes(self):
